@@ -466,6 +466,36 @@ func (g *Gen) fill(k Kind, depth int, hidden bool) *Node {
 //     same constructors and messages, different annotations.
 func (g *Gen) correlate(n *Node) {
 	switch n.K {
+	case WTags, WIssueLink:
+		// annotated twice: the outer annotation shares one tag (key and
+		// value) resp. the issue URL with an inner annotation of the same kind
+		if !g.T.Bool(1, 3) {
+			return
+		}
+		for c := n.Kids[0]; c != nil; {
+			if c.K == n.K {
+				if n.K == WTags && len(c.T) > 0 && len(n.T) > 0 {
+					shared := c.T[g.T.Draw(len(c.T))]
+					dup := false
+					for _, t := range n.T {
+						if t.Key.V == shared.Key.V {
+							dup = true
+						}
+					}
+					if !dup {
+						shared.Key.Tok, shared.Val.S.Tok = "", "" // (the inner layer owns the tokens)
+						n.T = append(n.T, shared)
+					}
+				} else if n.K == WIssueLink {
+					n.S[0] = Str{V: c.S[0].V, Safe: true}
+				}
+				return
+			}
+			if kinds[c.K].Arity != Wrap || len(c.Kids) != 1 {
+				return
+			}
+			c = c.Kids[0]
+		}
 	case WMark:
 		if !g.T.Bool(1, 3) {
 			return
